@@ -262,6 +262,9 @@ func propC12(c *Ctx) {
 		})
 	}
 
+	// the executor role of opchild changes hands at the plan height
+	c.Rule("C12.R4", func() { executorHandover(c, "C12.R4") })
+
 	// R5: ExecuteMessages
 	c.Rule("C12.R5", func() {
 		fn := handlers["opchild.ExecuteMessages"]
